@@ -128,7 +128,7 @@ REQUIRED_CLASSES = [
     "L:range-equal", "L:range-wider", "L:narrower-rejected", "L:arrays=1", "L:arrays=2", "L:arrays=3", "L:CzernyTurner",
     "L:pixel-sub-bin", "L:pixel-spans-several", "L:full-span-total",
 ]
-BUDGET_S = {"quick": 240, "thorough": 900}
+BUDGET_S = {"quick": 240, "thorough": 1500}
 CHUNK = 8
 
 _W = {}
